@@ -905,7 +905,9 @@ def neutron_scattering(compound, density=None,
     is_energy_dependent = False
     for element, quantity in compound.atoms.items():
         # TODO: use NaN rather than None
-        if not element.neutron.has_sld():
+        # Note: has_sld() also needs the density of the pure element, which
+        # is irrelevant for a compound with its own density.
+        if element.neutron.b_c is None:
             return None, None, None
         molar_mass += element.mass*quantity
         num_atoms += quantity
